@@ -95,6 +95,9 @@ type Config struct {
 	// it accepts (the name of the first frame outside the sync shim, e.g.
 	// "github.com/regclient/regclient.imageSeenOrWait").
 	BranchCaller func(fn string) bool
+	// FS makes the file operations of the OCI-layout scheme (through the os stand-in of the overlay)
+	// scheduling points of kind KFS. Off by default: only harnesses that ask for it see them.
+	FS bool
 	// Horizon is the maximum number of grants per execution (0 = 20000). Reaching it is reported
 	// as Outcome.Horizon (possible livelock); the rest of the execution is run round-robin up to
 	// FairTail further grants.
@@ -218,6 +221,13 @@ func (s *Sched) Yield(label string) { s.park(&pt{kind: KYield, label: label}) }
 func (s *Sched) ResetLocal() {
 	if g := s.me(); g != nil {
 		g.hist = nil
+	}
+}
+
+// FSPoint implements vsync.FSPointer: a point before a file operation of the layout code.
+func (s *Sched) FSPoint(label string) {
+	if s.cfg.FS {
+		s.park(&pt{kind: KFS, label: label})
 	}
 }
 
